@@ -218,6 +218,9 @@ def run(tier):
     ck.rule("E2.scatter-gather", "ScatterAxpy/GatherAxpy of SparseMatrixCSR/BCSR: the row comes from the row mapping's get_index(i), the column table is filled from col_idx over exactly [row_ptr[row], row_ptr[row+1]) of that row, the entry addressed is col_ptr[col_map.get_index(j)] and receives alpha * loc(i,j) (gather: loc(i,j) += alpha * data[...]); vectors: index from the mapping's get_index(i)", 7)
     ck.rule("E1.symbolic-graph", "SymbolicAssembler::assemble_graph_*: the pattern is the composition transpose(test dof graph) o (trial dof graph) (extended variants: with the facet/node adjacency in between), both rendered from the respective spaces, so that every (test dof, trial dof) pair sharing a cell receives an entry", 7)
 
+    ck.rule("E7.voxel-point-dependence", "voxel assembly kernels (poisson / defo / burgers matrix and defect, host-generic path): in one step of the cubature loop every datum entering the accumulation is computed at the CURRENT cubature point: the determinant factor is det of the Jacobian from calc_jac_mat(cub_pt[k]), the transformed gradients come from eval_ref_gradients(cub_pt[k]) and trans_gradients with the inverse of that same Jacobian, values from eval_ref_values(cub_pt[k]); a Jacobian evaluated outside the loop (e.g. at the cell centre) is exact on parallelogram cells only, the Standard trafo is multilinear", 6)
+    ck.rule("E7.voxel-weight-once", "voxel assembly kernels: every term accumulated into the local matrix/vector in the cubature loop carries exactly one factor det(J(cub_pt[k])) and exactly one factor cub_wg[k] of the same loop index k", 6)
+
     facts = featlib.extract("tu/c16_assembly.cpp", files=FILES)
     ck.tu(facts)
     for e in facts.errors_outside_repo():
@@ -229,6 +232,7 @@ def run(tier):
     check_routes(ck, facts, tier)
     check_scatter(ck, facts, tier)
     check_symbolic(ck, facts, tier)
+    check_voxel(ck, tier)
     if tier == "thorough":
         # breadth: the same rules on the float instantiation of every template (same keys; the detail names the instantiation)
         facts_f = featlib.extract("tu/c16_assembly.cpp", files=FILES, extra=("-DC16_DT=float",))
@@ -246,7 +250,7 @@ def run(tier):
     expl = ("Operators of common_operators.hpp: exact normal form of every eval body (engine E11) against the transcribed documented integrand, completeness of matrix values, "
             "config tags vs data read, symmetry, kernel of constants. Assembly routes (BilinearOperatorAssembler::assemble_matrix1/2, apply1/2, LinearFunctionalAssembler, the domain-assembler "
             "job tasks): normal form of one abstract accumulation step with resolved operand roles, weight/jac_det factors, scatter roles. CSR/BCSR scatter/gather index discipline; "
-            "symbolic assembler graph composition. NOT decided: numerical equality with exact integrals, Burgers/GPDV/voxel/trace assemblers, agreement of routes as numbers, cubature degree sufficiency.")
+            "symbolic assembler graph composition. Voxel kernels (poisson, defo, burgers matrix/defect; burgers with need_streamline = false): point dependence of Jacobian/gradient data and det*weight factors of every accumulated term. NOT decided: numerical equality with exact integrals, classic Burgers/GPDV/trace assemblers, the streamline-diffusion branch and the OpenMP/CUDA wrappers of the voxel assemblers, agreement of routes as numbers, cubature degree sufficiency.")
     return ck.finish(expl)
 
 
@@ -999,3 +1003,162 @@ def render_desc(d):
     if d[0] == "o":
         return "(%s o %s)" % (render_desc(d[2]), render_desc(d[3]))
     return str(d[1] if len(d) > 1 else d[0])
+
+
+# -------------------------------------------------------------------------------------------------
+# voxel assembly kernels
+# -------------------------------------------------------------------------------------------------
+
+VOXEL_FILES = "|".join([F("kernel/voxel_assembly/"), F("kernel/util/tiny_algebra.hpp")])
+VOXEL_TUS = {"poisson": "kernel/voxel_assembly/arch/poisson_assembler.cpp", "defo": "kernel/voxel_assembly/arch/defo_assembler.cpp",
+             "burgers": "kernel/voxel_assembly/arch/burgers_assembler.cpp"}
+# runtime switches of the burgers kernels are fixed per analysed configuration (struct field / parameter names of the kernel API);
+# need_streamline = false: the streamline-diffusion branch depends on a runtime norm and is not analysed
+BURGERS_CONFIGS = [("deformation", {"deformation": 1, "frechet_beta": 1, "theta": 1}, {"need_streamline": 0, "need_convection": 1}),
+                   ("gradient", {"deformation": 0, "frechet_beta": 1, "theta": 1}, {"need_streamline": 0, "need_convection": 1})]
+POINT_PARAMS = ("dom_point", "point")
+
+
+def voxel_filter(t, call):
+    return t.file.endswith("/kernel/util/tiny_algebra.hpp") and t.name not in ("set_inverse", "det", "vol", "norm_euclid")
+
+
+def check_voxel(ck, tier):
+    for what, tu in sorted(VOXEL_TUS.items()):
+        try:
+            facts = featlib.extract(F(tu), files=VOXEL_FILES)
+        except featlib.AnalysisBroken as e:
+            ck.incomplete("E7.voxel-point-dependence", "%s: %s" % (tu, e))
+            continue
+        ck.tu(facts)
+        for e in facts.errors_in_repo():
+            ck.ob("E7.voxel-point-dependence", "E0/%s/%s" % (rel(e["file"]), re.sub(r"\d+", "N", e["msg"])[:80]), False, "front-end error %s:%d %s" % (rel(e["file"]), e["line"], e["msg"]), e["file"], e["line"])
+        kernels = {}
+        for f in facts.functions:
+            if f.tk == "pattern" or not f.name.endswith("_assembly_kernel") or not f.qn.startswith("FEAT::VoxelAssembly::Kernel::"):
+                continue
+            m = re.search(r"FEAT::Shape::Hypercube<(\d)>", f.full)
+            dim = int(m.group(1)) if m else 0
+            dt = "double" if re.search(r"SpaceHelper<.*, double, ", f.full) else "float"
+            if dt != "double" and tier == "quick":
+                continue
+            if dim == 3 and tier == "quick":
+                continue
+            kernels.setdefault((f.name, dim, dt), f)
+        if not kernels:
+            ck.incomplete("E7.voxel-point-dependence", "%s: no *_assembly_kernel instantiation found" % tu)
+        for (name, dim, dt), f in sorted(kernels.items()):
+            configs = BURGERS_CONFIGS if what == "burgers" else [("", {}, {})]
+            for cname, fields, flags in configs:
+                key = "%s/dim%d%s%s" % (name, dim, ("/" + cname) if cname else "", "" if dt == "double" else "/" + dt)
+                analyse_voxel_kernel(ck, facts, f, key, fields, flags)
+
+
+def analyse_voxel_kernel(ck, facts, f, key, fields, flags):
+    names = [p["n"] for p in f.params]
+    need = ["cub_pt", "cub_wg", "num_cubs"]
+    if any(n not in names for n in need) or not names:
+        ck.incomplete("E7.voxel-point-dependence", "%s: kernel parameters %s not found (have %s)" % (key, need, names))
+        return
+    P = {n: "P%d" % i for i, n in enumerate(names)}
+    out_root = "P0"
+    sx = AbsSymEx([facts], inline_filter=voxel_filter)
+    sx.versioned = True
+    for k, v in flags.items():
+        if k in P:
+            sx.store[(P[k], ())] = Poly.const(v)
+    if fields:
+        if "burgers_params" not in P:
+            ck.incomplete("E7.voxel-point-dependence", "%s: parameter burgers_params not found" % key)
+            return
+        for k, v in fields.items():
+            sx.store[(P["burgers_params"], (k,))] = Poly.const(v)
+    try:
+        sx.run(f, this=None)
+    except NotClosedForm as e:
+        ck.incomplete("E7.voxel-point-dependence", "%s: %s" % (key, e))
+        return
+    evs = sx.events
+    # the cubature loop: bounded by num_cubs
+    cub = None
+    for l in sx.loops:
+        c = l["cond"]
+        if c and c[0] == "<" and isinstance(c[2], Poly) and c[2].single_symbol() == P["num_cubs"] and l["vars"]:
+            cub = l["vars"][0]["sym"]
+    if cub is None:
+        ck.incomplete("E7.voxel-point-dependence", "%s: no loop `k < num_cubs` found" % key)
+        return
+    wsym = "%s[%s]" % (P["cub_wg"], cub)
+    ptname = "%s[%s]" % (P["cub_pt"], cub)
+    acc = {p: v for p, v in sx.outputs(out_root).items() if isinstance(v, Poly)}
+    incs = [(p, v) for p, v in acc.items() if not v.is_zero()]
+    if not incs:
+        ck.incomplete("E7.voxel-weight-once", "%s: nothing is accumulated into %s" % (key, names[0]))
+        return
+
+    def at_point(ev):
+        """the reference point operand of the call is cub_pt[k] of the cubature loop"""
+        for pn, a in zip(ev["pn"], ev["args"]):
+            if pn in POINT_PARAMS:
+                if not isinstance(a, Loc):
+                    return False
+                nm = loc_name(a)
+                return nm == ptname or ptname in ev["contents"].get(nm, ()) or any(s.startswith(ptname + "[") for s in ev["contents"].get(nm, ()))
+        return None
+
+    memo = {}
+
+    def problems_of(n, path=()):
+        """walk the definition chain of event n: every call taking a reference point must take cub_pt[k] inside the loop"""
+        if n in memo:
+            return memo[n]
+        memo[n] = []
+        ev = evs[n]
+        pr = []
+        short = ev["callee"].rsplit("::", 1)[-1]
+        ap = at_point(ev)
+        if ap is False or (ap is True and cub not in ev["loops"]):
+            pr.append("%s (line %s) is evaluated %s, not at the current cubature point %s" % (short, ev["line"], "outside the cubature loop" if cub not in ev["loops"] else "at another point", "cub_pt[k]"))
+        for rootname, v in ev["in_versions"].items():
+            if v != n:
+                pr += problems_of(v)
+        memo[n] = pr
+        return pr
+
+    pprob, wprob = [], []
+    seen_det = seen_basis = 0
+    dets = set()
+    vers = set()
+    for p, v in incs:
+        for mon, cf in v.t.items():
+            ds = [(s, e) for s, e in mon if re.match(r"^CALL\d+:(det|vol)$", s)]
+            ws = [(s, e) for s, e in mon if s.startswith(P["cub_wg"] + "[")]
+            if len(ds) != 1 or ds[0][1] != 1 or len(ws) != 1 or ws[0][1] != 1 or ws[0][0] != wsym:
+                if len(wprob) < 3:
+                    wprob.append("term %s of the increment of %s%s has det factors %s and weight factors %s (expected one det and one %s)" % (
+                        Poly({mon: cf}), names[0], symex.path_str(p), ds, ws, "cub_wg[k]"))
+            for d0, e0 in ds:
+                dets.add(d0)
+            for s, e in mon:
+                m = re.search(r"@(\d+)$", s)
+                if m:
+                    vers.add(int(m.group(1)))
+    for d in sorted(dets):
+        n = int(re.match(r"^CALL(\d+):", d).group(1))
+        seen_det += 1
+        pr = problems_of(n)
+        if cub not in evs[n]["loops"]:
+            pr = pr + ["the determinant (line %s) is computed outside the cubature loop" % evs[n]["line"]]
+        chain_has_jac = any(at_point(evs[x]) is not None for x in memo)
+        pprob += ["jac_det: " + x for x in pr]
+    has_point_call = False
+    for vn in sorted(vers):
+        seen_basis += 1
+        pprob += ["basis data: " + x for x in problems_of(vn)]
+    has_point_call = any(at_point(evs[x]) is True for x in memo)
+    if not has_point_call and not pprob:
+        pprob.append("no call evaluated at cub_pt[k] feeds the accumulation")
+    pprob = sorted(set(pprob))
+    ck.ob("E7.voxel-point-dependence", key, not pprob, "; ".join(pprob[:3]) if pprob else "det, gradients and values of the %d accumulated entries derive from calls at cub_pt[k] (%d defining calls checked)" % (len(incs), len(memo)), f.file, f.line,
+          sample={"entry": symex.path_str(incs[0][0]), "increment": str(incs[0][1])[:240]})
+    ck.ob("E7.voxel-weight-once", key, not wprob and seen_det > 0, "; ".join(wprob[:2]) if wprob else ("every term carries det(J(cub_pt[k])) * cub_wg[k] once" if seen_det else "no determinant factor found"), f.file, f.line)
